@@ -18,6 +18,7 @@ RULE = (
     "17 shipped classes x dim 1-3 x seeded parameters (default / interior / bounds' edges) x hostile lag sets "
     "(0, 1e-12.., support edge and its nextafter neighbours, far tail); 4 user subclasses per defining function; "
     "every case is non-trivial (distinct = distinct model/parameter/lag-set description)"
+    " Round and near-round optional-argument values per model."
 )
 ASSUMPTIONS = [
     "gsverif/oracles/cov.py: independent mpmath (30 digits) transcription of the documented formulas",
